@@ -106,6 +106,11 @@ RefShape(shape, inner, arity) ==
       [] shape = "except" -> inner \o " EXCEPT SELECT \"ot\".\"k\" FROM \"ot\""
       [] OTHER -> inner
 
+\* ---- programs with a meaning to preserve: two select-list entries with one alias make every reference to that
+\* alias (ORDER BY / GROUP BY of the aliased term) ambiguous in SQL itself; such programs are not generated
+DistinctAliases(b) == \A i, j \in DOMAIN b.sel : (i # j /\ Alias(b.sel[i]) # "") => Alias(b.sel[i]) # Alias(b.sel[j])
+Meaningful(b) == DistinctAliases(b)
+
 \* ---- suspects: what in a program could make the library's rendering diverge
 RECURSIVE TermsOf(_)
 AllTerms(b) == b.sel \o b.whr \o b.grp \o b.hav \o [i \in DOMAIN b.ord |-> b.ord[i].t]
